@@ -390,7 +390,9 @@ Definition obj_step (o : obj) (a : action) : obj * sout :=
 Inductive sop :=
 | NewClass (fields : list A) (tuples_only : bool)
 | NewFrame (k : backing) (names : list A) (rows : list (rowobj A))
-| On (i : nat) (a : action).
+| On (i : nat) (a : action)
+| NewCopy (i : nat)                (* copy.deepcopy(object i): an equal, independent object *)
+| NewHead (i : nat) (n : nat).     (* frame i .head(n) = slice(0, n): materialises frame i, the new frame holds a NEW list of its first n rows *)
 
 Fixpoint set_nth {T : Type} (l : list T) (i : nat) (x : T) : list T :=
   match l, i with
@@ -407,6 +409,15 @@ Definition sess_step (st : list obj) (op : sop) : list obj * sout :=
               | Some o => (set_nth st i (fst (obj_step o a)), snd (obj_step o a))
               | None => (st, SBad)
               end
+  | NewCopy i => match nth_error st i with
+                 | Some o => (st ++ [o], SNone)
+                 | None => (st, SBad)
+                 end
+  | NewHead i n => match nth_error st i with
+                   | Some (OFrame names s) =>
+                       (set_nth st i (OFrame names (materialize s)) ++ [OFrame names (SEager (firstn n (contents s)))], SNone)
+                   | _ => (st, SBad)
+                   end
   end.
 
 Fixpoint sess_run (st : list obj) (ops : list sop) : list sout :=
@@ -426,6 +437,7 @@ Fixpoint actions_on (i : nat) (ops : list sop) : list action :=
   match ops with
   | [] => []
   | On j a :: r => if Nat.eqb j i then a :: actions_on i r else actions_on i r
+  | NewHead j n :: r => if Nat.eqb j i then AFrame OpMaterialize :: actions_on i r else actions_on i r   (* head materialises its source *)
   | _ :: r => actions_on i r
   end.
 
@@ -440,7 +452,7 @@ End Session.
 Arguments DDict {A}. Arguments DTuple {A}. Arguments make_row {A}. Arguments OClass {A}. Arguments OFrame {A}.
 Arguments AMake {A}. Arguments AFrame {A}. Arguments AAppendDict {A}. Arguments SNone {A}. Arguments SRow {A}.
 Arguments SFrameOut {A}. Arguments SBad {A}. Arguments obj_step {A}. Arguments NewClass {A}. Arguments NewFrame {A}.
-Arguments On {A}. Arguments sess_step {A}. Arguments sess_run {A}. Arguments sess_state {A}.
+Arguments On {A}. Arguments NewCopy {A}. Arguments NewHead {A}. Arguments sess_step {A}. Arguments sess_run {A}. Arguments sess_state {A}.
 Arguments actions_on {A}. Arguments obj_after {A}.
 
 (* ---- orso.row.extract_columns (row.py:49-68): the plain-Python definition kept beside the compiled
